@@ -14,11 +14,14 @@ RULE = ("part 'gfa2': GFA2 graphs with named and anonymous E lines of every kind
         "links with different overlaps and asymmetric CIGARs, containments in both roles, count tags on edges; "
         "self-links as a separately labelled class; bystander segments, links, containments and paths) x target "
         "segment x factor -1..4 x distribute in {None, off, auto, equal, L, R} x copy names {automatic, given, "
-        "original already ending in *n}. Oracle from the statement: k segments with fresh distinct (or the "
+        "original already ending in *n} x origin options {none, track_origin, extended, custom origin_tag, segment "
+        "with an origin tag of its own}; 30% of the graphs have a crowded end (3..7 further links incl. parallel "
+        "ones on one end of the segment). Oracle from the statement: k segments with fresh distinct (or the "
         "requested) names, identical sequence/tags with counts floor-divided on the segment and its edges, every "
         "copy carrying a copy of every dovetail and containment; with distribution on an end: no link invented, "
         "every former neighbour end still linked to >= 1 copy, every copy keeps >= 1 link if there were >= k, the "
-        "other end untouched; factor 1 = identity, factor 0 = removal cascade of the model, negative factor = "
+        "other end untouched; with origin tracking the copies carry the origin (tags otherwise identical); "
+        "factor 1 = identity under every option, factor 0 = removal cascade of the model, negative factor = "
         "ArgumentError with unchanged state; everything not incident to the segment unchanged; closure/symmetry "
         "invariants. non-trivial = factor >= 2 and the segment has >= 2 links on one end or a containment")
 ASSUMPTIONS = [
@@ -99,6 +102,12 @@ def prop(case):
         kw["distribute"] = distribute
     if names_opt is not None:
         kw["copy_names"] = list(names_opt)
+    origin = case.get("origin") or {}
+    kw.update(origin)
+    tracked = bool(origin.get("track_origin") or origin.get("extended"))
+    otag = origin.get("origin_tag", "or")
+    if origin.get("extended") and distribute is None:
+        distribute = "auto"
     arg = g.segment(target) if case.get("by_instance") else target
     before = O.observe(g)
     btext = str(g)
@@ -147,7 +156,18 @@ def prop(case):
     t = src[target]
     for c in copies:
         r = segs[c]
-        if r.pos[1] != t.pos[1] or tagkey(r.tags) != tagkey(t.tags, factor):
+        rtags = list(r.tags)
+        if tracked:
+            # the copies (gfapy: the original too) name where they come from: the original's
+            # own origin tag if it has one, else its name
+            have = t.tag(otag)
+            want_o = have[1] if have else target
+            got_o = r.tag(otag)
+            if c != target and (got_o is None or got_o[1] != want_o):
+                raise Violation("origin", "%s\ncopy %s: origin tag %s is %r, expected %r" % (ctx, c, otag, got_o, want_o))
+            if not have:
+                rtags = [x for x in rtags if x[0] != otag]
+        if r.pos[1] != t.pos[1] or tagkey(rtags) != tagkey(t.tags, factor):
             raise Violation("copy-differs", "%s\nsegment %s is not a faithful copy: %r vs original %r (counts / %d)" % (ctx, c, r.text(), t.text(), factor))
     for s in src:
         if s != target and G.canon_rec(segs[s]) != G.canon_rec(src[s]):
@@ -300,6 +320,14 @@ def build(r):
         links.append(["L", [f, fo, t, to, ov], tags])
 
     others = [x for x in names if x != target] or names
+    if gen.chance(r, 0.3):
+        # a crowded end: many links, also parallel ones, on one end of the segment
+        for _ in range(r.randint(3, 7)):
+            o = gen.choice(r, others)
+            if gen.chance(r, 0.5):
+                add(target, "+", o, gen.choice(r, "+-"))
+            else:
+                add(o, gen.choice(r, "+-"), target, "-")
     for _ in range(r.randint(1, 6)):
         o = gen.choice(r, others)
         if gen.chance(r, 0.5):
@@ -333,7 +361,16 @@ def st_case(draw):
     names = None
     if factor >= 2 and gen.chance(r, 0.3):
         names = ["cp%d" % i for i in range(factor - 1)]
-    return {"doc": doc, "segment": target, "factor": factor,
+    origin = None
+    if gen.chance(r, 0.3):
+        origin = gen.choice(r, [{"track_origin": True}, {"extended": True}, {"track_origin": True, "origin_tag": "og"},
+                                {"extended": True, "origin_tag": "og"}])
+        if gen.chance(r, 0.3):
+            # the segment has an origin of its own already
+            for l in doc["lines"]:
+                if l[0] == "S" and l[1][0] == target and not any(t[0] == origin.get("origin_tag", "or") for t in l[2]):
+                    l[2].append([origin.get("origin_tag", "or"), "Z", "Q"])
+    return {"doc": doc, "segment": target, "factor": factor, "origin": origin,
             "distribute": gen.choice(r, [None, None, "off", "auto", "equal", "L", "R"]), "copy_names": names,
             "by_instance": gen.chance(r, 0.3), "vlevel": gen.choice(r, [1, 1, 2, 3])}
 
